@@ -57,6 +57,14 @@ func applyFn(tag int) dataframe.FuncType {
 		}
 	case 8:
 		return func(xs []any) any { return xs } // identity: returns the slice it was given
+	case 9:
+		// appends to its argument (a pure function may: the result is a new slice value of length len+1)
+		return func(xs []any) any {
+			if len(xs) == 0 {
+				return xs
+			}
+			return append(xs, xs[0])
+		}
 	default:
 		return func(xs []any) any {
 			out := make([]bool, len(xs))
@@ -86,6 +94,8 @@ func aggFn(tag int) func([]any) any {
 			}
 			return xs[len(xs)-1]
 		}
+	case 4:
+		return func(xs []any) any { return xs } // identity: keeps the slice it was given (rendered after the call)
 	default:
 		return func(xs []any) any {
 			parts := make([]string, len(xs))
@@ -727,6 +737,13 @@ func genSeq(r *Rng, mode string, steps int) *Enc {
 		for _, c := range []string{"a", "b", "c"}[:r.Range(1, 3)] {
 			k := Pick(r, []colKind{kInt, kInt, kFloat, kStr, kNumStr, kWide, kBool, kTime, kMixed})
 			d := r.Column(n, k)
+			if r.Chance(8) {
+				// unsigned values at and above 2^63, all exactly representable (and distinct) as float64
+				big := []any{uint64(1) << 63, uint64(1)<<63 + 1<<11, uint64(1)<<63 + 1<<12, uint64(1) << 62, uint64(3), uint(1) << 63, nil}
+				for i := range d {
+					d[i] = Pick(r, big)
+				}
+			}
 			if r.Chance(50) { // few distinct values: many ties
 				for i := range d {
 					d[i] = d[r.Intn(min(3, n))]
@@ -745,6 +762,7 @@ func genSeq(r *Rng, mode string, steps int) *Enc {
 			{"x|b:y", "x", "y|b:z", "z", "nil", nil, "<nil>", "", "a", "a|", "1", 1},
 			{1, 2, int64(1), 1.0, "1", nil, true, "true"},
 			{"a", "b", nil}, {0.5, 1.5, float32(0.5), nil, 2},
+			{16777216.0, 16777217.0, 0.1, 0.1000000001, float32(0.1), nil, 1e-320},
 		}
 		for _, c := range []string{"a", "b", "c"}[:r.Range(1, 3)] {
 			alpha := Pick(r, colAlpha)
@@ -770,6 +788,12 @@ func genSeq(r *Rng, mode string, steps int) *Enc {
 		s.kinds = []string{"fillna", "dropna", "astype", "astype", "adddt"}
 		steps = r.Range(1, 3)
 		n := r.SmallN() + r.Intn(5)
+		if r.Chance(1) {
+			// a frame beyond typical chunking thresholds (1024, 2048)
+			n = Pick(r, []int{1025, 1100, 2049, 2100}) + r.Intn(7)
+			s.kinds = []string{"dropna", "fillna"}
+			steps = 1
+		}
 		df := dataframe.NewDataFrame()
 		for _, c := range []string{"a", "b", "c", "d"}[:r.Range(1, 4)] {
 			var d []any
@@ -812,6 +836,19 @@ func genSeq(r *Rng, mode string, steps int) *Enc {
 		s.kinds = []string{"shift", "shift", "shift", "setcell", "fillna", "droprow"}
 		steps = r.Range(1, 5)
 		s.pool = []*DF{r.Frame(r.SmallN()+r.Intn(4), r.Range(0, 3), names)}
+		if r.Intn(250) == 0 {
+			// a long single-column frame beyond typical parallelisation thresholds (4096, 16384), length not a multiple of 8
+			n := Pick(r, []int{4096, 16384}) + 1 + 2*r.Intn(10)
+			d := make([]any, n)
+			for i := range d {
+				d[i] = i
+			}
+			big := dataframe.NewDataFrame()
+			big.Columns["a"] = &dataframe.Column[any]{Name: "a", Data: d}
+			s.pool = []*DF{big}
+			s.kinds = []string{"shift"}
+			steps = 1
+		}
 	default:
 		npool := r.Range(1, 3)
 		for i := 0; i < npool; i++ {
